@@ -568,6 +568,8 @@ def _run(chk, wd, proved, only=None):
                     chk.dist('kind:' + tags[0])
                     chk.dist('auth:' + tags[2].split(':')[0])
                     _judge(chk, user, stored, tags, raw, o, fam)
+                    if not pipelined:
+                        _must_serve(chk, user, stored, tags, raw, o, fam)
                     if o['inner']:
                         served_status[o['status']] = served_status.get(o['status'], 0) + 1
                         _served_checks(chk, tags, raw, o, S)
@@ -758,6 +760,9 @@ def _run(chk, wd, proved, only=None):
         ('unnamed+named-different', [('inet_http_server', A), ('inet_http_server:view', B)], {}),
         ('two-named', [('inet_http_server:ops', A), ('inet_http_server:view', B)], {}),
         ('unix-named+unix-unnamed', [('unix_http_server:ops', B), ('unix_http_server', A)], {}),
+        ('mixed-case-users', [('unix_http_server', ('Admin', 'Adm-Pw1', 'Adm-Pw1')),
+                              ('inet_http_server:sha', ('OpsUser', sha('View-Pw'), 'View-Pw'))], {}),
+        ('upper-case-user', [('inet_http_server', ('ROOT', 'toor', 'toor'))], {}),
         ('empty-password', [('unix_http_server', E1), ('inet_http_server:env', E2)], {'inet_http_server:env': '%(ENV_X)s'}),
     ]
     for si, (sname, secs, pwtexts) in enumerate(shapes):
@@ -787,6 +792,11 @@ def _run(chk, wd, proved, only=None):
                     chk.dist('kind:section-shape:open-by-configuration')
                     continue
                 logins = [('absent', None)] + [('own' if c is mine else 'foreign', (c[0], c[2])) for c in everyone]
+                for variant in (mine[0].lower(), mine[0].upper(), mine[0].swapcase(), mine[0].capitalize()):
+                    if variant != mine[0]:
+                        logins.append(('own-user-other-case', (variant, mine[2])))
+                if mine[2].lower() != mine[2] or mine[2].upper() != mine[2]:
+                    logins.append(('own-password-other-case', (mine[0], mine[2].swapcase())))
                 logins += [('own-user-empty-password', (mine[0], '')), ('own-user-wrong-password', (mine[0], mine[2] + 'x')),
                            ('empty-both', ('', ''))]
                 for path, method, body in (('/RPC2', 'POST', rpc_body('rec.kill', 'g:p')), ('/mainlogtail', 'GET', b''),
@@ -953,6 +963,25 @@ CANON_OK = {
     '/index.html': 200, '/': 200, '/stylesheets/supervisor.css': 200, '/mainlogtail': 200, '/logtail/g:p': 200,
     '/ok.html': 200, '/RPC2': 200, '/tail.html?processname=g:p': 200,
 }
+
+
+MUST_SERVE = ('good', 'good:lowercase-scheme', 'good:uppercase-all', 'good:mixed', 'good:then-bad', 'good:after-unmatched')
+
+
+def _must_serve(chk, user, stored, tags, raw, o, fam):
+    """`Requests with the right credentials are served`: a request that was
+    dispatched (its block parsed, match() did not raise) and whose Authorization
+    header - under ANY capitalisation of the header name and of the scheme -
+    carries exactly the configured credentials must reach the inner handler."""
+    if tags[0] not in ('product', 'methods', 'random') or tags[2] not in MUST_SERVE:
+        return
+    if o['first_req'] is None or 'MRaise' in o['ms'] or 'MTrue' not in o['ms'] or ':' in user:
+        return
+    if not o['inner']:
+        chk.violation({'kind': 'PROPERTY VIOLATED: a request with the right credentials was refused',
+                       'config': [user, stored], 'server': fam, 'raw': list(raw), 'tags': list(tags),
+                       'status': o['status'],
+                       'note': 'HTTP header names and the scheme word are case-insensitive'})
 
 
 def _served_checks(chk, tags, raw, o, S):
